@@ -379,7 +379,10 @@ class Ctx:
                 if (signature, k.get("description", description)) not in self.known_hits:
                     self.known_hits.append((signature, k.get("description", description)))
                 return "known"
-        name = re.sub(r"[^A-Za-z0-9]+", "_", signature)[:60]
+        name = re.sub(r"[^A-Za-z0-9]+", "_", signature)
+        if len(name) > 60:   # distinct long signatures must not share one replay file
+            import hashlib
+            name = name[:52] + "_" + hashlib.sha1(signature.encode()).hexdigest()[:7]
         path = self.write_replay(name, dict(replay_obj, signature=signature, description=description))
         if not any(v[0] == signature for v in self.violations):
             self.violations.append((signature, description, path, found_input))
